@@ -210,6 +210,116 @@ def embed_np(M, dims, targets):
     return out
 
 
+# ---- the explicit solution proved in Lean (relaxSol2 / relaxSol3 / regSol), written with numpy -------------------
+def sol2_np(R, g1, gphi, t):
+    """relaxSol2 g1 (g1/2+gphi/2): populations relax with g1 towards |0><0|, coherences decay with g1/2+gphi/2"""
+    e, g = np.exp(-g1 * t), np.exp(-(g1 / 2 + gphi / 2) * t)
+    return np.array([[R[0, 0] + (1 - e) * R[1, 1], g * R[0, 1]], [g * R[1, 0], e * R[1, 1]]], dtype=complex)
+
+
+def sol3_np(R, g1, gphi, t):
+    """relaxSol3 sqrt2 g1 gphi (destroy(3), num(3))"""
+    s = np.sqrt(2.0)
+    e1, e2 = np.exp(-g1 * t), np.exp(-2 * g1 * t)
+    a, b, c = np.exp(-(g1 / 2 + gphi / 2) * t), np.exp(-(3 * g1 / 2 + gphi / 2) * t), np.exp(-(g1 + 2 * gphi) * t)
+    out = np.zeros((3, 3), dtype=complex)
+    out[0, 0] = R[0, 0] + R[1, 1] + R[2, 2] - (R[1, 1] + 2 * R[2, 2]) * e1 + R[2, 2] * e2
+    out[1, 1] = (R[1, 1] + 2 * R[2, 2]) * e1 - 2 * R[2, 2] * e2
+    out[2, 2] = R[2, 2] * e2
+    out[0, 1] = R[0, 1] * a + s * R[1, 2] * (a - b)
+    out[1, 0] = R[1, 0] * a + s * R[2, 1] * (a - b)
+    out[1, 2], out[2, 1] = R[1, 2] * b, R[2, 1] * b
+    out[0, 2], out[2, 0] = R[0, 2] * c, R[2, 0] * c
+    return out
+
+
+def apply_local(rho, dims, q, fn):
+    """(id x ... x fn x ... x id) rho: fn applied to every block of rho w.r.t. the other subsystems (liftL / liftR)"""
+    N = len(dims)
+    T = np.asarray(rho, dtype=complex).reshape(list(dims) + list(dims))
+    T = np.moveaxis(T, [q, N + q], [0, 1])
+    rest = T.shape[2:]
+    T2 = T.reshape(dims[q], dims[q], -1).copy()
+    for k in range(T2.shape[2]):
+        T2[:, :, k] = fn(T2[:, :, k])
+    T = np.moveaxis(T2.reshape((dims[q], dims[q]) + rest), [0, 1], [q, N + q])
+    D = int(np.prod(dims))
+    return T.reshape(D, D)
+
+
+def explicit_state(rho0, dims, rates, t):
+    """regSol: the explicit single-subsystem solution applied on every tensor factor; rates[q] = (g1, gphi)"""
+    rho = np.asarray(rho0, dtype=complex)
+    for q, d in enumerate(dims):
+        g1, gphi = rates[q]
+        rho = apply_local(rho, dims, q, (lambda R, g1=g1, gphi=gphi: (sol2_np if d == 2 else sol3_np)(R, g1, gphi, t)))
+    return rho
+
+
+def spec_rates(dims, t1, t2):
+    """squared prefactors (destroy, num) per subsystem, written from the property: 1/t1 and 2(1/t2 - 1/(2 t1))"""
+    N = len(dims)
+    l1 = t1 if isinstance(t1, list) else [t1] * N
+    l2 = t2 if isinstance(t2, list) else [t2] * N
+    out = []
+    for a, b in zip(l1, l2):
+        g1 = 0.0 if a is None else 1 / float(a)
+        gphi = 0.0 if b is None else float(2 / Fraction(b) - (0 if a is None else 1 / Fraction(a)))
+        out.append((g1, gphi))
+    return out
+
+
+def initial_state(kind, dims, seed):
+    """density matrix of the register: 'plus' | 'product' (random mixed factors) | 'entangled' (random mixed, full rank
+    mixture of two random pure joint states) | 'ghz' ((|0..0> + |1..1>)/sqrt2)"""
+    rs = np.random.RandomState(seed)
+    D = int(np.prod(dims))
+
+    def rand_dm(d, rank):
+        A = rs.normal(size=(d, rank)) + 1j * rs.normal(size=(d, rank))
+        M = A @ A.conj().T
+        return M / np.trace(M).real
+    if kind == "plus":
+        out = np.array([[1.0 + 0j]])
+        for d in dims:
+            v = np.zeros(d, dtype=complex); v[0] = v[1] = 1 / np.sqrt(2)
+            out = np.kron(out, np.outer(v, v.conj()))
+        return out
+    if kind == "product":
+        out = np.array([[1.0 + 0j]])
+        for d in dims:
+            out = np.kron(out, rand_dm(d, rs.randint(1, d + 1)))
+        return out
+    if kind == "ghz":
+        v = np.zeros(D, dtype=complex)
+        v[0] = 1 / np.sqrt(2)
+        idx = 0
+        for d in dims:
+            idx = idx * d + 1
+        v[idx] = 1 / np.sqrt(2)
+        return np.outer(v, v.conj())
+    return rand_dm(D, 2)
+
+
+def mesolve_states(dims, t1, t2, rho0, times):
+    """the implementation: idle Processor with t1/t2 -> get_qobjevo(noisy=True) -> qutip.mesolve"""
+    qutip, _, Processor = _impl()
+    N = len(dims)
+    p = Processor(N, dims=list(dims), t1=py_T(t1), t2=py_T(t2))
+    H, c_ops = p.get_qobjevo(noisy=True)
+    r0 = qutip.Qobj(rho0, dims=[list(dims), list(dims)])
+    r = qutip.mesolve(H, r0, times, c_ops=c_ops, options={"atol": 1e-12, "rtol": 1e-10, "nsteps": 200000})
+    return [(st if st.isoper else qutip.ket2dm(st)).full() for st in r.states]
+
+
+def time_grid(dims, t1, t2):
+    N = len(dims)
+    l1 = t1 if isinstance(t1, list) else [t1] * N
+    l2 = t2 if isinstance(t2, list) else [t2] * N
+    scale = min([float(x) for x in l1 + l2 if x is not None], default=1.0)
+    return [0.0] + [scale * f for f in (0.3, 1.0, 2.5)]
+
+
 def parse_model(ans):
     if ans.startswith("err "):
         return ans[4:].strip(), None
@@ -259,6 +369,9 @@ def pair(rng, rel):
     return t1, t1 * Fraction(rng.randint(1, 2 ** 9 - 1), 2 ** 8)      # inside: 0 < t2 < 2 t1
 
 
+SOL_TOL = 5e-8     # mesolve is run with atol 1e-12 / rtol 1e-10 (measured worst deviation ~6e-10)
+
+
 class C15(PropertyCheck):
     id = "C15"
     lean_modules = ["QipVerif.Props.C15"]
@@ -281,26 +394,61 @@ class C15(PropertyCheck):
         "QipVerif.C15.C15_counterexample_orig",
         "QipVerif.C15.ops_per_subsystem",
         "QipVerif.C15.process_noise_collection",
+        "QipVerif.C15.solves_iff_matrix_derivative",
+        "QipVerif.C15.qubit_solution",
+        "QipVerif.C15.qubit_solution_unique",
+        "QipVerif.C15.exponential_laws",
+        "QipVerif.C15.qubit_state_valid",
+        "QipVerif.C15.valid_iff_t2_le_2t1",
+        "QipVerif.C15.accepted_iff_physical",
+        "QipVerif.C15.C15_unphysical_beyond_boundary",
+        "QipVerif.C15.qutrit_solution",
+        "QipVerif.C15.qutrit_state_valid",
+        "QipVerif.C15.product_states",
+        "QipVerif.C15.register_solution",
+        "QipVerif.C15.register_independent",
     ]
     level_text = ("Lean 4 theorems about the exact-rational model of RelaxationNoise/process_noise: for every positive t1 and every "
                   "0 < t2 <= 2 t1 (boundary included), t1-only and t2-only, the Lindblad operators the code adds define a generator "
                   "with d/dt rho11 = -rho11/t1 and d/dt rho01 = -rho01/t2 for qubits, and the destroy(3)/num(3) analogue for "
                   "three-level subsystems; every Lindblad generator preserves trace and Hermiticity (any dimension); the set-up "
                   "rejects exactly non-positive scalars, wrong-length lists and t2 > 2 t1; each subsystem gets its own operators. "
+                  "SOLUTION of the idle master equation dρ/dt = 𝓛ρ with 𝓛 built from the model's operators (Mathlib HasDerivAt, "
+                  "every matrix entry, every initial matrix): the explicit ρ(t) for d = 2 (populations e^{-t/t1} towards |0><0|, "
+                  "coherences e^{-t/t2}) and d = 3 solves it, starts at ρ0 and is the ONLY solution on [0,∞) (uniqueness "
+                  "proved); the exponential laws are corollaries. VALIDITY: for all t >= 0 the explicit ρ(t) of a density matrix "
+                  "(Mathlib Matrix.PosSemidef, trace 1) is a density matrix, for d = 2 and d = 3 (operator-sum form of the "
+                  "solution); for d = 2 this holds for all states and times IF AND ONLY IF t2 <= 2 t1 (for t2 > 2 t1 |+><+| "
+                  "gets a negative determinant at t = 1/(1/t1 - 2/t2)) - exactly the pairs the repaired code accepts. SEVERAL "
+                  "SUBSYSTEMS: for a register of any number of qubits with per-qubit (t1,t2) the explicit joint solution solves "
+                  "the joint master equation (operators embedded as 1⊗..⊗A⊗..⊗1) for EVERY initial matrix, product or entangled, "
+                  "keeps density matrices density matrices (complete positivity of the qubit channel), and evolves each qubit "
+                  "of a product state by its own law; for two subsystems of any dimensions the product of local solutions "
+                  "solves the joint equation and is a density matrix. "
                   "The boundary t2 = 2 t1 raises ZeroDivisionError in the code as shipped (proved on the model, confirmed on the "
                   "code) and is repaired by fixes/C15-1.patch, which model and theorems describe. Model tied to the code by an exact "
-                  "correspondence (targets, operator kind, dimension, verdict; squared prefactor to 1e-12).")
-    level_note = ("partial: proof for rates and validation; NOT proved: positivity of the evolved state (complete positivity of "
-                  "Lindblad evolution, GKLS) and that qutip.mesolve solves the linear ODE (the laws exp(-t/t1), exp(-t/t2) follow "
-                  "from the proved generator entries by the scalar linear ODE) - both only checked numerically by the oracle; "
-                  "independence of subsystems is proved for which operators are produced and, at generator level, for product "
-                  "states of two subsystems (subsystems_independent); the reduced dynamics of 3 subsystems is checked numerically. List entries are not validated for positivity by the code (modelled, nan/inf prefactors).")
-    technique = "Lean 4 proof (exact rationals, Mathlib matrices over C, entrywise dissipator computation) + model/implementation correspondence"
+                  "correspondence (targets, operator kind, dimension, verdict; squared prefactor to 1e-12) and by comparing "
+                  "qutip.mesolve's ρ(t) on the implementation's (H, c_ops) with the explicit solution evaluated with the model's "
+                  "prefactors (1-3 subsystems of dimension 2/3, product / entangled / GHZ initial states, boundary, t1-only, "
+                  "t2-only, lists and scalars; 5e-8).")
+    level_note = ("partial: proved for the idle processor with relaxation noise: rates, validation, the solution of the master "
+                  "equation, its uniqueness (single subsystem), validity of evolved states (single qubit / qutrit; qubit registers "
+                  "with arbitrary joint states; product states of any two subsystems). NOT proved: that qutip.mesolve returns this "
+                  "solution (numerical integrator: compared to 5e-8 on every check, not proved); uniqueness for several "
+                  "subsystems; entangled joint states involving a three-level subsystem (numerical only); positivity with "
+                  "control pulses (time-dependent Hamiltonian) or the other shipped noise models (RandomNoise, ControlAmpNoise, "
+                  "DecoherenceNoise, ZZCrossTalk) - the general GKLS statement - is only checked numerically by the oracle "
+                  "(eigenvalues >= -1e-6). List entries are not validated for positivity by the code (modelled, nan/inf prefactors).")
+    technique = ("Lean 4 proof (exact rationals, Mathlib matrices over C, entrywise dissipator computation; explicit solutions with "
+                 "HasDerivAt, integrating-factor uniqueness, operator-sum (Kraus) forms for positivity, induction over the "
+                 "register) + model/implementation correspondence incl. solver-vs-explicit-solution comparison")
     trusted_base = [
         "Lean 4.33 kernel; axioms propext, Classical.choice, Quot.sound",
         "qutip.destroy(d), qutip.num(d) are the matrices a2/n2/a3/n3 of Lemmas/NoiseLindblad.lean (checked by the correspondence for d = 2, 3)",
-        "qutip.mesolve integrates d rho/dt = -i[H,rho] + sum D[c](rho) for the returned (H, c_ops); complete positivity of Lindblad evolution",
-        "Pulse.add_lindblad_noise / get_noisy_qobjevo / expand_operator place each element on its target (C08; re-checked numerically here)",
+        "qutip.mesolve integrates d rho/dt = -i[H,rho] + sum D[c](rho) for the returned (H, c_ops) (numerical solver; its rho(t) is compared with the proved explicit solution to 5e-8 on every check)",
+        "positivity under control pulses / other noise models (complete positivity of general Lindblad evolution): not proved, numerical support only",
+        "Pulse.add_lindblad_noise / get_noisy_qobjevo / expand_operator place each element on its target, i.e. as 1⊗..⊗A⊗..⊗1 (C08; re-checked numerically here)",
+        "the numpy transcription of relaxSol2 / relaxSol3 / regSol in py/props/c15.py (sol2_np, sol3_np, explicit_state) equals the Lean definitions (by reading; 25 lines)",
         "py/props/c15.py (harness; exceptions canonicalised to {invalidT,t2gt2t1,zerodiv,index})",
     ]
     assumptions = ["relaxation times are Python floats or ints (numpy scalars behave identically after the patch; sampled)",
@@ -308,7 +456,9 @@ class C15(PropertyCheck):
     rule = ("case = (dims over {2,3}^N, N<=3; t1/t2 each None | scalar | per-subsystem list with optional None entries; relation "
             "t2 vs 2 t1 in {inside, near-boundary, boundary, outside}; explicit targets; entry point RelaxationNoise / "
             "process_noise / Processor; extra noise objects); exact dyadic times; non-trivial = at least one time given; "
-            "malformed stream = non-positive scalars, wrong-length lists, non-positive list entries, out-of-range targets; the "
+            "malformed stream = non-positive scalars, wrong-length lists, non-positive list entries, out-of-range targets; "
+            "solution cases = (dims, relation, argument shape, initial state in {|+..+>, random mixed product, random entangled "
+            "mixed, GHZ}) with mesolve's rho(t) at 4 times against the explicit solution with the model's prefactors; the "
             "property oracle additionally replays histories (one processor, 0-2 extra noise objects, 1-3 requests)")
 
     # ---------------------------------------------------------------------------------
@@ -377,6 +527,42 @@ class C15(PropertyCheck):
                 res.disagree(inp, model, str(impl_str), f"squared prefactor {ic!r} vs exact {mr} = {float(mr)!r}", wit)
                 return
 
+    def _solution_case(self, ctx, res, dims, t1, t2, kind, seed, tags=()):
+        """mesolve on the implementation's (H, c_ops) against the explicit solution (Lean: relaxSol2 / relaxSol3 / regSol)
+        evaluated with the MODEL's squared prefactors, for an arbitrary initial density matrix, at 4 times"""
+        line = f"relax fixed=1 dims={','.join(map(str, dims))} t1={enc_T(t1)} t2={enc_T(t2)} targets=none"
+        model = ctx.driver("drv_noise").run([line])[0]
+        mst, mels = parse_model(model)
+        inp = {"via": "solution", "dims": dims, "t1": json_T(t1), "t2": json_T(t2), "state": kind, "seed": seed}
+        res.case(inp, nontrivial=True, tags=list(tags) + ["solution", f"state={kind}", f"N={len(dims)}", "verdict=" + mst])
+        wit = {"kind": "solution", "dims": dims, "t1": json_T(t1), "t2": json_T(t2), "state": kind, "seed": seed}
+        if mst != "ok":
+            res.disagree(inp, model, "valid times (generated inside the property's class)", "model rejects valid times", wit)
+            return
+        rates = [[0.0, 0.0] for _ in dims]
+        for tg, kd, d, r in mels:
+            if r == "nan" or len(tg) != 1 or kd not in ("destroy", "num"):
+                res.disagree(inp, model, "-", "unexpected operator of the model for valid times", wit)
+                return
+            rates[tg[0]][0 if kd == "destroy" else 1] += float(r)
+        rho0 = initial_state(kind, dims, seed)
+        times = time_grid(dims, t1, t2)
+        with warnings.catch_warnings():
+            warnings.simplefilter("ignore")
+            try:
+                states = mesolve_states(dims, t1, t2, rho0, times)
+            except Exception as e:  # canonicalised
+                res.disagree(inp, model, "err " + classify_exc(e), "the implementation's master equation cannot be set up / integrated", wit)
+                return
+        for t, st in zip(times, states):
+            exp = explicit_state(rho0, dims, rates, t)
+            err = float(np.abs(st - exp).max())
+            if not err <= SOL_TOL:
+                i, j = np.unravel_index(np.abs(st - exp).argmax(), st.shape)
+                res.disagree(inp, f"explicit rho({t:.4g})[{i},{j}] = {exp[i, j]:.9f}", f"mesolve {st[i, j]:.9f}",
+                             f"mesolve's state differs from the explicit solution by {err:.3g}", wit)
+                return
+
     def _spec_variants(self, rng, N, rel):
         """(t1, t2) argument shapes for N subsystems with every present pair in relation `rel`"""
         pairs = [pair(rng, rel) for _ in range(N)]
@@ -407,6 +593,22 @@ class C15(PropertyCheck):
         res.notes.append("systematic over all dims in {2,3}^N (N<=3) x relation {inside, near-boundary, boundary, outside} x argument "
                          "shape {scalar/scalar, t1 only, t2 only, list/list, scalar/list, lists with None entries} with random exact "
                          "dyadic times, through each of the three entry points")
+        # the solution: mesolve's rho(t) against the explicit solution with the model's rates
+        sol_dims = [d for d in all_dims if int(np.prod(d)) <= (18 if ctx.thorough else 12)]
+        k = 0
+        for dims in sol_dims:
+            for rel in ("inside", "near", "boundary"):
+                for shape, t1, t2 in self._spec_variants(rng, len(dims), rel):
+                    if shape == "s/l" and not ctx.thorough:
+                        continue
+                    k += 1
+                    kind = ("plus", "product", "entangled", "ghz")[k % 4]
+                    self._solution_case(ctx, res, dims, t1, t2, kind, rng.randint(0, 10 ** 6),
+                                        tags=["systematic", f"rel={rel}", f"shape={shape}"])
+        res.notes.append("solution: for every dims with total dimension <= 12 (thorough: 18) x {inside, near-boundary, boundary} x "
+                         "argument shape, mesolve's rho(t) at 4 times from |+..+>, a random mixed product state, a random "
+                         "entangled mixed state or a GHZ-like state against the explicit solution proved in Lean, evaluated "
+                         f"with the model's squared prefactors (max-entry tolerance {SOL_TOL:g})")
         # random: explicit targets, additional noise objects, device_noise off
         for t in range(600 if ctx.thorough else 150):
             dims = rng.choice(all_dims)
@@ -479,6 +681,8 @@ class C15(PropertyCheck):
                     return True, f"noisy simulation crashed: {type(e).__name__}: {str(e)[:120]}"
             if kind == "history":
                 return self._history(ctx, w)
+            if kind == "solution":
+                return self._solution(ctx, w)
             dims = w["dims"]
             N = len(dims)
             t1, t2 = unjson_T(w["t1"]), unjson_T(w["t2"])
@@ -513,6 +717,43 @@ class C15(PropertyCheck):
             if bad:
                 return True, bad
             return False, "decay laws, trace, Hermiticity and positivity hold at 4 times"
+
+    def _solution(self, ctx, w):
+        """the property's decay laws as the full state: mesolve's rho(t) from an arbitrary initial density matrix equals
+        the explicit solution written from t1, t2 alone (populations e^{-t/t1}, coherences e^{-t/t2}, each subsystem on
+        its own tensor factor), and is a physical state"""
+        qutip = _impl()[0]
+        dims = list(w["dims"])
+        t1, t2 = unjson_T(w["t1"]), unjson_T(w["t2"])
+        if valid_times(dims, t1, t2) is not True:
+            return False, "not valid relaxation times: outside the property's class"
+        rho0 = initial_state(w.get("state", "plus"), dims, int(w.get("seed", 0)))
+        times = time_grid(dims, t1, t2)
+        try:
+            states = mesolve_states(dims, t1, t2, rho0, times)
+        except Exception as e:
+            return True, f"valid relaxation times: set-up / integration raised {type(e).__name__}: {str(e)[:100]}"
+        rates = spec_rates(dims, t1, t2)
+        for t, st in zip(times, states):
+            bad = self._physical_state(qutip.Qobj(st, dims=[dims, dims]))
+            if bad:
+                return True, f"state at t={t:.4g}: {bad}"
+            exp = explicit_state(rho0, dims, rates, t)
+            err = float(np.abs(st - exp).max())
+            if not err <= SOL_TOL:
+                i, j = np.unravel_index(np.abs(st - exp).argmax(), st.shape)
+                return True, (f"rho({t:.4g})[{i},{j}] = {st[i, j]:.9f}, the decay laws exp(-t/t1), exp(-t/t2) give "
+                              f"{exp[i, j]:.9f} (initial state: {w.get('state', 'plus')})")
+        return False, f"mesolve's rho(t) equals the explicit solution at {len(times)} times (<= {SOL_TOL:g}) and is physical"
+
+    def _solution_witness(self, rng):
+        w = self._decay_witness(rng)
+        while int(np.prod(w["dims"])) > 12:
+            w = self._decay_witness(rng)
+        w["kind"] = "solution"
+        w["state"] = rng.choice(["plus", "product", "entangled", "ghz"])
+        w["seed"] = rng.randint(0, 10 ** 6)
+        return w
 
     def _decay_check(self, dims, times, states, g1, g2, tol=2e-6):
         """every subsystem of the product of (|0>+|1>)/sqrt2: rho11 = exp(-g1 t)/2, |rho01| = exp(-g2 t)/2"""
@@ -750,6 +991,12 @@ class C15(PropertyCheck):
                  {"kind": "decay", "dims": [2], "t1": "1", "t2": "3/2"},
                  {"kind": "decay", "dims": [3], "t1": "2", "t2": "1"},
                  {"kind": "decay", "dims": [2, 3], "t1": ["1", "2"], "t2": ["2", "1"]},
+                 {"kind": "solution", "dims": [2], "t1": "1", "t2": "2", "state": "entangled", "seed": 1},
+                 {"kind": "solution", "dims": [2], "t1": "1", "t2": "3/2", "state": "entangled", "seed": 2},
+                 {"kind": "solution", "dims": [3], "t1": "2", "t2": "1", "state": "entangled", "seed": 3},
+                 {"kind": "solution", "dims": [2, 2], "t1": ["1", "2"], "t2": ["2", "1"], "state": "ghz", "seed": 4},
+                 {"kind": "solution", "dims": [2, 3], "t1": "2", "t2": None, "state": "entangled", "seed": 5},
+                 {"kind": "solution", "dims": [2, 2], "t1": None, "t2": "3", "state": "ghz", "seed": 6},
                  {"kind": "history", "dims": [2], "t1": "1", "t2": "3/2", "noises": [], "calls": ["qobjevo", "qobjevo"], "drive": False},
                  {"kind": "history", "dims": [2], "t1": "1", "t2": "3/2", "noises": [["C"]], "calls": ["qobjevo", "qobjevo"], "drive": False},
                  {"kind": "history", "dims": [2], "t1": "1", "t2": "3/2", "noises": [["C"]], "calls": ["run", "run", "run"], "drive": True},
@@ -763,8 +1010,8 @@ class C15(PropertyCheck):
             if f:
                 yield w, d
         while time.time() - t0 < budget_s:
-            w = ctx.rng.choice([self._decay_witness, self._history_witness, self._history_witness, self._reject_witness,
-                                self._physical_witness])(ctx.rng)
+            w = ctx.rng.choice([self._decay_witness, self._solution_witness, self._history_witness, self._history_witness,
+                                self._reject_witness, self._physical_witness])(ctx.rng)
             try:
                 f, d = self.oracle_replay(ctx, w)
             except Exception as e:
@@ -775,6 +1022,8 @@ class C15(PropertyCheck):
     def oracle_always(self, ctx):
         ws = [{"kind": "decay", "dims": [2], "t1": "1", "t2": "2"}]
         ws += [self._decay_witness(ctx.rng) for _ in range(12 if ctx.thorough else 5)]
+        ws += [{"kind": "solution", "dims": [2, 2], "t1": ["1", "2"], "t2": ["2", "1"], "state": "ghz", "seed": 4}]
+        ws += [self._solution_witness(ctx.rng) for _ in range(12 if ctx.thorough else 5)]
         ws += [self._reject_witness(ctx.rng) for _ in range(12 if ctx.thorough else 6)]
         ws += [self._physical_witness(ctx.rng) for _ in range(10 if ctx.thorough else 3)]
         ws += [{"kind": "history", "dims": [2], "t1": "1", "t2": "3/2", "noises": [["C"]], "calls": ["qobjevo", "run"], "drive": True}]
